@@ -224,7 +224,9 @@ pub fn module_top(parsed: &ParsedSource) -> ModTop {
             t.exports.insert(i.id.sym.to_string());
           }
         }
-        ModuleDecl::TsExportAssignment(_) => t.other_statements.push("export=".into()),
+        ModuleDecl::TsExportAssignment(a) => {
+          t.other_statements.push(if matches!(&*a.expr, Expr::Ident(_)) { "export=ident".into() } else { "export=".into() })
+        }
         ModuleDecl::TsNamespaceExport(_) => t.other_statements.push("export as namespace".into()),
       },
     }
